@@ -253,6 +253,12 @@ func (s *c06State) kvp(item string) *hydrapb.KeyValuePair {
 		f = append(f, "")
 	}
 	kv := &hydrapb.KeyValuePair{Key: f[0]}
+	// `V~v`: the typed value V sent together with VoidVal = true (as the SDK does for a typed zero): V is what is stored
+	if strings.HasSuffix(f[1], "~v") {
+		f[1] = strings.TrimSuffix(f[1], "~v")
+		t := true
+		kv.VoidVal = &t
+	}
 	ty, val, _ := strings.Cut(f[1], ":")
 	switch ty {
 	case "i8":
@@ -1323,11 +1329,20 @@ func c06Time(rng *rand.Rand) string {
 	return "b7200000000000"
 }
 
+// a value token; one typed value in eight is sent with VoidVal set as well
+func c06ItemValue(rng *rand.Rand) string {
+	v := c06Value(rng)
+	if v != "void" && v != "none" && rng.Intn(8) == 0 {
+		return v + "~v"
+	}
+	return v
+}
+
 func c06Item(rng *rand.Rand, key string, meta bool) string {
 	if !meta {
-		return key + "|" + c06Value(rng) + "|||||"
+		return key + "|" + c06ItemValue(rng) + "|||||"
 	}
-	return strings.Join([]string{key, c06Value(rng), c06Time(rng), c06Pick(rng, c06Users), c06Time(rng), c06Pick(rng, c06Users), c06Time(rng)}, "|")
+	return strings.Join([]string{key, c06ItemValue(rng), c06Time(rng), c06Pick(rng, c06Users), c06Time(rng), c06Pick(rng, c06Users), c06Time(rng)}, "|")
 }
 
 func c06SomeKeys(rng *rand.Rand, max int) []string {
@@ -1366,6 +1381,19 @@ func c06IncOp(rng *rand.Rand, key string) string {
 			by = c06Pick(rng, []string{"1", "1", "2", "5", "100", "0", "255"})
 		}
 		cv = c06Pick(rng, []string{"0", "0", "1", "2", "5", "10", "100"})
+		// the ends of the type's range and the sign boundary, as steps and as condition operands
+		if rng.Intn(4) == 0 {
+			cv = c06IntVal(rng, ty)
+			if !signed && rng.Intn(2) == 0 {
+				_, _, _, bits := c06IntRange(ty)
+				cv = strconv.FormatUint(uint64(1)<<(bits-1)+uint64(rng.Intn(2)), 10) // 2^(bits-1), 2^(bits-1)+1
+			}
+		}
+		if rng.Intn(6) == 0 {
+			if b := c06IntVal(rng, ty); b != "0" {
+				by = b
+			}
+		}
 		// Int8/Int16/Uint8/Uint16 travel in 32-bit fields: arguments outside the width of the request
 		// (the handlers cast them), among them steps that are zero only after the cast
 		if _, _, _, bits := c06IntRange(ty); bits <= 16 && rng.Intn(4) == 0 {
@@ -1458,6 +1486,11 @@ type c06CorpusCase struct {
 }
 
 var c06Corpus = []c06CorpusCase{
+	// conditions on stored values beyond the sign bit of their width (an unsigned comparison through a signed cast fails here)
+	{[]string{"mem"}, []string{"set 11 k0|u64:9223372036854775809||||| k1|u32:2147483649||||| k2|u16:32769||||| k3|u8:129||||| k4|i64:-9223372036854775808|||||",
+		"inc u64 k0 1 gt:5 - -", "inc u64 k0 1 lt:5 - -", "inc u64 k0 1 ge:9223372036854775808 - -", "inc u64 k0 1 le:9223372036854775807 - -",
+		"inc u32 k1 1 gt:5 - -", "inc u32 k1 1 lt:2147483648 - -", "inc u16 k2 1 gt:5 - -", "inc u8 k3 1 gt:5 - -", "inc u8 k3 1 le:127 - -",
+		"inc i64 k4 -1 lt:0 - -", "inc i64 k4 1 gt:0 - -", "getall"}},
 	// keys the file cannot hold (empty, 65536 bytes) are refused by every request that could create a record;
 	// the longest storable key (65535 bytes) is an ordinary key
 	{[]string{"mem", "p1"}, []string{"set 11 k0|i64:1||||| |i64:2|||||", "issw", "inc i64 x@65536 1 - - -", "push :1", "push k1:1 x@70000:2", "issw",
